@@ -149,7 +149,10 @@ func p11NoNL(ss ...string) bool {
 
 var p11ReservedPrefixes = []string{"\t", "//", "TEXT ·", "#include ", "DATA ", "GLOBL "}
 
-func p11WellFormedFile(f *ir.File) bool {
+func p11WellFormedFile(cfg printer.Config, f *ir.File) bool {
+	if !p11NoNL(cfg.Name) || !p11NoNL(cfg.Argv...) {
+		return false
+	}
 	cons, err := p11ConstraintLines(f)
 	if err != nil {
 		return false
